@@ -78,6 +78,8 @@ def bitrev_dft(n):
 
 
 class Model(probe.Contract):
+    freeze = True  # the oracle sees the arguments as they were at call entry; arrays / lists rewritten by the call are reported
+    input_prop = P
     def __init__(self, name):
         self.api = 'models.' + name
         self.name = name
